@@ -269,3 +269,115 @@ Theorem C15_icdf_inverts_cdf_given_exact_erfinv_partial :
   icdf (numR erf erfinv gammaf lgammaf) (DNormal mu sigma) (Phi erf mu sigma x) = Val x.
 Proof. exact normal_icdf_inverts_cdf_given_exact_erfinv. Qed.
 Print Assumptions C15_icdf_inverts_cdf_given_exact_erfinv_partial.
+
+(* ====================================================================== *)
+(* The density / probability / cdf functions and the samplers regenerated from the
+   source text ARE the ones the theorems above are about.
+
+   Dist/Gen_Dist.v is produced on every run by translator/py2gallina_dist.py
+   from src/pydsol/core/distributions.py of the tree under test (Python `ast`,
+   fail-closed); Dist/GenAgree.v proves every generated definition equal to the
+   hand-written one of Dist/Density.v / Dist/Draw.v for every number structure.
+   The main theorems are restated here for the generated definitions. *)
+From PV Require Import Dist.Gen_Dist Dist.GenAgree.
+
+Theorem C15_generated_model_is_the_proved_model : forall N : num,
+  (forall c sok ps, gen_ctor N c sok ps = ctor N false c sok ps) /\
+  (forall d x, gen_pdf N d x = pdf N false d x) /\
+  (forall d k, gen_prob N d k = prob N d k) /\
+  (forall d x, gen_cdf N d x = cdf N d x) /\
+  (forall d y, gen_icdf N d y = icdf N d y) /\
+  (forall d m a, gen_call N d m a = call N false d m a).
+Proof. exact dist_density_generated_agree. Qed.
+Print Assumptions C15_generated_model_is_the_proved_model.
+
+(* C15_ctor_stores_wellformed_parameters + C15_density_total_nonneg_zero_outside, generated *)
+Theorem C15_generated_density_total_nonneg_zero_outside :
+  forall (erf erfinv gammaf lgammaf : R -> R),
+  (forall x, 0 < x -> 0 < gammaf x) ->
+  forall c sok ps d x,
+  gen_ctor (numR erf erfinv gammaf lgammaf) c sok ps = Val d -> has_density d = true ->
+  exists v, gen_pdf (numR erf erfinv gammaf lgammaf) d x = Val v /\ 0 <= v /\
+            (outside erf erfinv gammaf lgammaf d x -> v = 0).
+Proof.
+  intros erf erfinv gammaf lgammaf G c sok ps d x H D. rewrite gen_ctor_eq in H. rewrite gen_pdf_eq.
+  apply (C15_density_total_nonneg_zero_outside erf erfinv gammaf lgammaf G d x); [|exact D].
+  exact (C15_ctor_stores_wellformed_parameters erf erfinv gammaf lgammaf c sok ps d H).
+Qed.
+Print Assumptions C15_generated_density_total_nonneg_zero_outside.
+
+Theorem C15_generated_probability_total_nonneg_zero_outside :
+  forall (erf erfinv gammaf lgammaf : R -> R) c sok ps d k,
+  gen_ctor (numR erf erfinv gammaf lgammaf) c sok ps = Val d -> has_prob d = true ->
+  exists v, gen_prob (numR erf erfinv gammaf lgammaf) d k = Val v /\ 0 <= v /\ (outsideZ d k -> v = 0).
+Proof.
+  intros erf erfinv gammaf lgammaf c sok ps d k H D. rewrite gen_ctor_eq in H. rewrite gen_prob_eq.
+  apply (C15_probability_total_nonneg_zero_outside erf erfinv gammaf lgammaf d k); [|exact D].
+  exact (C15_ctor_stores_wellformed_parameters erf erfinv gammaf lgammaf c sok ps d H).
+Qed.
+Print Assumptions C15_generated_probability_total_nonneg_zero_outside.
+
+(* the inverse-transform samplers, generated draw against the antiderivative of the generated density
+   (C15_weibull_sampler with C15_weibull_normalised; likewise exponential, triangular, uniform) *)
+Theorem C15_generated_weibull_sampler :
+  forall (erf erfinv gammaf lgammaf : R -> R) alpha beta u us x,
+  0 < alpha -> 0 < beta -> 0 < u < 1 -> 0 < x ->
+  gen_DistWeibull_draw (numR erf erfinv gammaf lgammaf) alpha beta (u :: us)
+    = (Val (beta * Rpower (- ln u) (1 / alpha)), us) /\
+  (beta * Rpower (- ln u) (1 / alpha) <= x <-> 1 - F_weibull alpha beta x <= u) /\
+  (forall v, gen_pdf (numR erf erfinv gammaf lgammaf) (DWeibull alpha beta) x = Val v ->
+             is_derive (F_weibull alpha beta) x v).
+Proof.
+  intros erf erfinv gammaf lgammaf alpha beta u us x A B U X.
+  destruct (C15_weibull_sampler erf erfinv gammaf lgammaf alpha beta None u us x A B U X) as [D I].
+  split; [|split; [exact I|]].
+  - rewrite gen_DistWeibull_draw_eq in D. exact (fv_val _ _ _ _ _ _ D).
+  - intros v E. rewrite gen_pdf_eq in E.
+    destruct (C15_weibull_normalised erf erfinv gammaf lgammaf alpha beta A B) as [Der _].
+    pose proof (Der x X) as K. unfold pdfv in K. rewrite E in K. exact K.
+Qed.
+Print Assumptions C15_generated_weibull_sampler.
+
+Theorem C15_generated_exponential_sampler :
+  forall (erf erfinv gammaf lgammaf : R -> R) mean u us x, 0 < mean -> 0 < u ->
+  gen_DistExponential_draw (numR erf erfinv gammaf lgammaf) mean (u :: us) = (Val (- mean * ln u), us) /\
+  (- mean * ln u <= x <-> 1 - F_exponential mean x <= u).
+Proof.
+  intros erf erfinv gammaf lgammaf mean u us x M U.
+  destruct (C15_exponential_sampler erf erfinv gammaf lgammaf mean None u us x M U) as [D I].
+  split; [|exact I]. rewrite gen_DistExponential_draw_eq in D. exact (fv_val _ _ _ _ _ _ D).
+Qed.
+Print Assumptions C15_generated_exponential_sampler.
+
+Theorem C15_generated_triangular_sampler :
+  forall (erf erfinv gammaf lgammaf : R -> R) lo mode hi u us x,
+  lo <= mode <= hi -> lo < hi -> 0 <= u <= 1 -> lo <= x <= hi ->
+  gen_DistTriangular_draw (numR erf erfinv gammaf lgammaf) lo mode hi (u :: us) = (Val (g_tri lo mode hi u), us) /\
+  (g_tri lo mode hi u <= x <-> u <= F_tri lo mode hi x).
+Proof.
+  intros erf erfinv gammaf lgammaf lo mode hi u us x A B U X.
+  destruct (C15_triangular_sampler erf erfinv gammaf lgammaf lo mode hi None u us x A B U X) as [D I].
+  split; [|exact I]. rewrite gen_DistTriangular_draw_eq in D. exact (fv_val _ _ _ _ _ _ D).
+Qed.
+Print Assumptions C15_generated_triangular_sampler.
+
+Theorem C15_generated_uniform_sampler :
+  forall (erf erfinv gammaf lgammaf : R -> R) lo hi u us x, lo < hi ->
+  gen_DistUniform_draw (numR erf erfinv gammaf lgammaf) lo hi (u :: us) = (Val (lo + (hi - lo) * u), us) /\
+  (lo + (hi - lo) * u <= x <-> u <= F_uniform lo hi x).
+Proof.
+  intros erf erfinv gammaf lgammaf lo hi u us x A.
+  destruct (C15_uniform_sampler erf erfinv gammaf lgammaf lo hi None u us x A) as [D I].
+  split; [|exact I]. rewrite gen_DistUniform_draw_eq in D. exact (fv_val _ _ _ _ _ _ D).
+Qed.
+Print Assumptions C15_generated_uniform_sampler.
+
+(* the repaired triangular density at a degenerate mode, generated (C15_triangular_density_pinned_refuted, second half) *)
+Theorem C15_generated_triangular_density_total_at_degenerate_mode :
+  forall (erf erfinv gammaf lgammaf : R -> R),
+  exists v, gen_DistTriangular_probability_density (numR erf erfinv gammaf lgammaf) 1 1 2 1 = Val v /\ v = 2.
+Proof.
+  intros erf erfinv gammaf lgammaf. rewrite gen_DistTriangular_probability_density_eq.
+  exact (proj2 (C15_triangular_density_pinned_refuted erf erfinv gammaf lgammaf)).
+Qed.
+Print Assumptions C15_generated_triangular_density_total_at_degenerate_mode.
